@@ -7,6 +7,12 @@
    Environment: a reader that delivers any 0..Chunk bytes per Read, may report EOF together with data or
    alone, or fails after exactly failAt bytes.
    Abstract layer (what a caller may observe):  StreamEqualsMemory (C08), Tiling (C01), NoReadAfterLatch.
+   Size limit (readline, maxBlockSize): the buffer never grows beyond MaxBuf; a Read asks for Chunk bytes, or for a
+   third of the room that is left once three times a chunk no longer fits (every byte read may be a NUL that is padded to
+   three); when no room is left and the pending line has no line ending yet, the line is DROPPED, the error
+   "line N: block too large" is latched and everything goes on as at end of input (action inside Run: TooLarge).
+   Abstract layer for it: BufBounded, LimitPrefix (the caller receives exactly the blocks of the input before the
+   dropped line, then that error with that line's number, persistently), LimitNotPremature.
 
    The block grammar is a deliberately small deterministic one that exercises every book-keeping path:
    '#' line = one-line block (closed on its own line, ends after its EOL); '`' line toggles a block that
@@ -17,13 +23,22 @@
 EXTENDS Bytes, TLC, Json, Randomization
 CONSTANTS Alphabet,   \* set of byte values used to build inputs
           MaxLen,     \* maximum input length
-          Chunk       \* model chunkSize
+          Chunk,      \* model chunkSize
+          MaxBuf      \* model maxBlockSize (a value no buffer can reach, e.g. 1000, switches the limit off)
 
 \* ---------- parser record ----------
 \* buf, i, offset, lineno, err ("nil","EOF","E"), blocks (seq of [s,e,k]; e = -1 open), ls (lineStart), mode, out
 \* mode: "idle" = between NextBlock calls; "skip" = skipping blank lines; "lines" = in the line loop waiting for a line
 NewParser(buf, err, lineno) == [buf |-> buf, i |-> 0, offset |-> 0, lineno |-> lineno, err |-> err,
-                                blocks |-> <<>>, ls |-> 0, mode |-> "idle", out |-> <<>>, ret |-> "nil", want |-> FALSE]
+                                blocks |-> <<>>, ls |-> 0, mode |-> "idle", out |-> <<>>, ret |-> "nil", want |-> FALSE,
+                                eline |-> 0, lim |-> 0, dropped |-> 0]
+
+\* readline: how many bytes the next Read may deliver (newSize - len(buf)); <= 0 means the block is too large
+Req(p) == IF Len(p.buf) + Chunk * 3 > MaxBuf THEN (MaxBuf - Len(p.buf)) \div 3 ELSE Chunk
+\* the pending line is dropped, the error latched; eline = its line number, lim = buffer length at that moment,
+\* dropped = how many input bytes (unpadded) of the pending line had been read already
+TooLarge(p) == [p EXCEPT !.buf = Sub(p.buf, 0, p.i), !.err = "TooLarge", !.eline = p.lineno + LineCount(Sub(p.buf, 0, p.i)),
+                         !.lim = Len(p.buf), !.dropped = Unpadded(Sub(p.buf, p.i, Len(p.buf)))]
 
 \* index (0-based, relative to buf) of first CR/LF at or after i, or -1
 RECURSIVE FindEOL(_, _)
@@ -81,7 +96,7 @@ Run(p) ==
       ELSE IF Len(p.blocks) > 0 THEN Run([p EXCEPT !.ls = p.i, !.mode = "lines"])
       ELSE Run([DropConsumed(p) EXCEPT !.mode = "skip"])
   ELSE LET e == ScanEOL(p) IN
-      IF e < 0 THEN [p EXCEPT !.want = TRUE]
+      IF e < 0 THEN (IF Req(p) <= 0 THEN Run(TooLarge(p)) ELSE [p EXCEPT !.want = TRUE])
       ELSE IF p.mode = "skip" THEN
           IF ~(p.i < e) THEN [p EXCEPT !.mode = "done", !.ret = p.err]          \* readline false: return p.err
           ELSE LET q == [p EXCEPT !.i = e] IN
@@ -126,7 +141,7 @@ Cutoff == IF failAt >= 0 THEN failAt ELSE Len(input)
 \* The parser wants data: the reader delivers k bytes (0 <= k <= Chunk), possibly together with the
 \* terminal condition (EOF or the failure), which may only be reported once everything before it was delivered.
 Read == /\ p.want
-        /\ \E k \in 0..Chunk :
+        /\ \E k \in 0..Req(p) :
              /\ rpos + k <= Cutoff
              /\ \E fin \in BOOLEAN :
                   /\ fin => rpos + k = Cutoff
@@ -146,8 +161,22 @@ Spec == Init /\ [][Next]_vars
 
 \* ---------- properties ----------
 \* C08: at termination the emitted blocks are those of the in-memory parse of the delivered prefix, then the right error
-StreamEqualsMemory == p.mode = "done" => /\ p.out = RefOut(Sub(input, 0, Cutoff))
-                                          /\ p.ret = (IF failAt >= 0 THEN "E" ELSE "EOF")
+\* where the delivered input ends for the caller: at the reader's terminal condition, or before the dropped line
+Limited == p.err = "TooLarge"
+DropAt == rpos - p.dropped
+EndOfData == IF Limited THEN DropAt ELSE Cutoff
+StreamEqualsMemory == p.mode = "done" => /\ p.out = RefOut(Sub(input, 0, EndOfData))
+                                          /\ p.ret = (IF Limited THEN "TooLarge" ELSE IF failAt >= 0 THEN "E" ELSE "EOF")
+\* ---- the size limit ----
+BufBounded == Len(p.buf) <= MaxBuf
+\* the dropped line starts a line of the input, and the error names that line
+LimitPrefix == Limited => /\ (DropAt = 0 \/ input[DropAt] \in {LF, CR})
+                          /\ ~(DropAt > 0 /\ DropAt < Len(input) /\ input[DropAt] = CR /\ input[DropAt + 1] = LF)
+                          /\ p.eline = 1 + LineCount(Sub(input, 0, DropAt))
+\* the parser gives up only when fewer than three bytes of room are left (one more byte might be a NUL)
+LimitNotPremature == Limited => p.lim > MaxBuf - 3
+\* ... and therefore never on an input whose padded form fits altogether
+FitsNeverLimited == Len(Pad(input)) <= MaxBuf - 3 => ~Limited
 \* C01 on the model: the emitted records tile the delivered prefix
 Tiling(out, x) ==
   /\ \A k \in 1..Len(out) :
@@ -158,9 +187,9 @@ Tiling(out, x) ==
        /\ out[k].src = Fill(Pad(Sub(x, out[k].so, out[k].eo)))
   /\ (out # <<>> => IsBlank(Sub(x, out[Len(out)].eo, Len(x))))
   /\ (out = <<>> => IsBlank(x))
-TilingInv == p.mode = "done" => Tiling(p.out, Sub(input, 0, Cutoff))
+TilingInv == p.mode = "done" => Tiling(p.out, Sub(input, 0, EndOfData))
 \* book-keeping invariant of the implementation layer: offset accounts for exactly the bytes cut so far
-OffsetInv == p.offset + Unpadded(p.buf) = rpos
+OffsetInv == ~Limited => p.offset + Unpadded(p.buf) = rpos
 \* the error latch: once the reader reported a terminal condition the parser never asks again
 NoReadAfterLatch == p.err # "nil" => ~p.want
 LatchStable == [][p.err # "nil" => p'.err = p.err]_vars
@@ -170,6 +199,7 @@ Progress == [][rpos' > rpos \/ p'.err # "nil" \/ p' = p]_vars
 \* direction A: emit one record per terminal state (exhaustive: one representative schedule per distinct
 \* terminal state because of VIEW; simulation: the random schedule of the behaviour)
 Emit == p.mode = "done" => PrintT(ToJson([in |-> input, fail |-> failAt, sched |-> sched,
-                                          n |-> Len(p.out), ret |-> p.ret,
+                                          n |-> Len(p.out), ret |-> p.ret, eline |-> p.eline, upto |-> EndOfData,
+                                          chunk |-> Chunk, max |-> MaxBuf,
                                           outs |-> [k \in 1..Len(p.out) |-> <<p.out[k].so, p.out[k].eo, p.out[k].line>>]]))
 =============================================================================
